@@ -268,6 +268,20 @@ class FastSig:
                 return (id(v), FastSig._shallow(d, depth - 1))
         return id(v)
 
+    def sig0(self):
+        """Tier 0, cheap enough for EVERY boundary: identity of every slot value plus the length of every
+        sized container - catches rebinding and add/remove (also when undone a few boundaries later)."""
+        out = []
+        for d, k in self.slots:
+            try:
+                v = d if k is None else d[k]
+            except (KeyError, IndexError):
+                out.append(None)
+                continue
+            t = type(v)
+            out.append((id(v), len(v)) if t is dict or t is list or t is set else id(v))
+        return hash(tuple(out))
+
     def sig(self):
         """Two tiers: identities of every slot value (rebinding), then a shallow
         structural signature of the slots holding containers or rtflite instances."""
